@@ -51,6 +51,7 @@ int main(int argc, char** argv) {
         else if (kind == "container4") pv::run_container(sc);
         else if (kind == "algebra") pv::run_algebra(sc);
         else if (kind == "nsz") pv::run_nsz(sc);
+        else if (kind == "bigfock") pv::run_bigfock(sc);
         else if (kind == "workflow") pv::run_workflow(sc);
         else if (kind == "container2") pv::run_container2(sc);
         else pv::emit({{"e", "Error"}, {"id", sc.value("id", json())}, {"what", "unknown kind"}});
